@@ -63,14 +63,18 @@ class Build:
         self.gen_report = {}
         self.broken = []          # list of (kind, name, detail)
 
-    def prepare(self):
+    def prepare(self, regenerate=True):
+        """regenerate=False keeps the committed reference copies of Gen/ (the definitions generated from
+        the unchanged tree at the last commit): used only to SEARCH for a concrete failing input when the
+        regenerated development no longer builds."""
         if os.path.exists(self.dir):
             shutil.rmtree(self.dir)
         os.makedirs(os.path.dirname(self.dir), exist_ok=True)
         # copy sources and any prebuilt .vo (setup_cmd builds them in coq/)
         subprocess.run(["rsync", "-a", "--exclude", "*.aux", "--exclude", ".*.aux", "--exclude", "*.glob",
                         COQ_SRC + "/", self.dir + "/"], check=True)
-        self.regenerate()
+        if regenerate:
+            self.regenerate()
         if not os.path.exists(os.path.join(self.dir, "Makefile")):
             self.sh("coq_makefile -f _CoqProject -o Makefile", 120)
 
